@@ -4,6 +4,7 @@ import (
 	"context"
 	"encoding/json"
 	"fmt"
+	"math"
 	"math/rand/v2"
 	"os"
 	"sort"
@@ -351,6 +352,11 @@ func GenWorld(rng *rand.Rand, p Profile) *World {
 	if p.Nested {
 		w.Paths = []string{"x/p", "x/q", "x/p", "x/q", "x/p/m", "x/p/n", "x/q/m", "y/p", "y/q", "y"}
 		w.Prios = []int32{0, 0, 0, 0, 0, 0, 30, -40}
+	}
+	// REv2 priorities are arbitrary int32 values: some worlds use the
+	// extremes of the range (differences beyond 2^31).
+	if (p.Nested && rng.IntN(4) == 0) || (!p.Nested && rng.IntN(10) == 0) {
+		w.Prios = []int32{math.MinInt32, -1500000000, 0, 0, 30, 1500000000, math.MaxInt32}
 	}
 	if p.DedupHeavy {
 		w.Paths = []string{"", "x", "y", "x/p"}
